@@ -11,7 +11,7 @@ for f in lib/Base.v model/Json.v model/Ast.v lib/F64.v lib/Strconv.v gen/Unicode
   if [ ! -f "${f}o" ] || [ "$f" -nt "${f}o" ]; then timeout 900 coqc -Q . SJ "$f"; fi
 done
 # the parser-side files are always rebuilt, in dependency order (about 10 s)
-for f in lib/Utf8.v lib/GoLib.v model/Lexer.v model/Parser.v model/Printer.v model/PathAPI.v; do
+for f in lib/Utf8.v lib/GoLib.v model/Lexer.v model/Parser.v model/Printer.v model/PathAPI.v proofs/RoundTrip.v; do
   timeout 900 coqc -Q . SJ "$f"
 done
 cd "$HERE/coq"
